@@ -26,6 +26,10 @@ def stores_for(ctx, mix, scale=1):
         out.append((pipe.single(gen.random_flow(rng)), "a.s", "flow"))
     for _ in range(mix.get("random", 0) * k):
         out.append((pipe.single(gen.render(rng, gen.program(rng))), "a.s", "random"))
+    for _ in range(mix.get("handlers", 0) * k):
+        out.append((pipe.single(gen.handler_prog(rng)), "a.s", "handlers"))
+    for _ in range(mix.get("stack", 0) * k):
+        out.append((pipe.single(gen.stack_fuzz(rng)), "a.s", "stack"))
     for _ in range(mix.get("mutated", 0) * k):
         out.append((pipe.single(gen.mutated_text(rng, gen.render(rng, gen.program(rng, rng.randrange(1, 10))))), "a.s", "mutated"))
     for _ in range(mix.get("rendered-conforming", 0) * k):
